@@ -34,6 +34,8 @@ pub struct GenCfg {
     pub no_toplevel_subsume_delete: bool,
     /// a constructor / relation never mixes two different container sorts in its arguments
     pub one_container_sort_per_table: bool,
+    /// lattice functions are never keyed by a container
+    pub no_container_func_keys: bool,
 }
 
 impl Default for GenCfg {
@@ -63,6 +65,7 @@ impl Default for GenCfg {
             no_empty_containers: false,
             no_toplevel_subsume_delete: false,
             one_container_sort_per_table: false,
+            no_container_func_keys: false,
         }
     }
 }
@@ -180,7 +183,13 @@ impl<'a, 'b> Gen<'a, 'b> {
                 let arity = 1 + s.below(2);
                 let mut args = vec![];
                 for _ in 0..arity {
-                    args.push(if s.chance(2, 3) { Ty::Eq(s.below(sig.sorts.len())) } else { Ty::I64 });
+                    // with containers on, functions may be keyed by a container of e-classes (a table with an
+                    // eq-container column and no eq-sort column at all)
+                    if self.cfg.containers && !self.cfg.no_container_func_keys && !sig.conts.is_empty() && s.chance(1, 4) {
+                        args.push(Ty::Cont(s.below(sig.conts.len())));
+                    } else {
+                        args.push(if s.chance(2, 3) { Ty::Eq(s.below(sig.sorts.len())) } else { Ty::I64 });
+                    }
                 }
                 let (out, merge) = match s.below(6) {
                     0 | 1 => (Ty::I64, Merge::Min),
